@@ -49,8 +49,14 @@ type plan struct {
 func originBase(a int) *document.Document {
 	b := document.New()
 	b.AddParagraph("Base {{name}}")
-	for j := 0; j < a%8; j++ {
-		switch j % 6 {
+	for j := 0; j < a%11; j++ {
+		switch j % 9 {
+		case 6:
+			b.AddFootnote("base text", "base footnote")
+		case 7:
+			b.AddEndnote("base text", "base endnote")
+		case 8:
+			b.AddFootnote("base text", "second base footnote")
 		case 0:
 			b.AddHeader(document.HeaderFooterTypeDefault, "base header")
 		case 1:
@@ -169,7 +175,11 @@ func applyDocOp(dp **document.Document, op docOp) {
 	case "endnote":
 		d.AddEndnote(op.S, "en "+op.S)
 	case "removenote":
-		d.RemoveFootnote(fmt.Sprint(1 + op.A%3))
+		if op.A%4 == 3 {
+			d.RemoveEndnote(fmt.Sprint(1 + op.A%3))
+		} else {
+			d.RemoveFootnote(fmt.Sprint(1 + op.A%3))
+		}
 	case "list":
 		d.AddListItem(op.S, &document.ListConfig{Type: []document.ListType{document.ListTypeNumber, document.ListTypeLowerLetter, document.ListTypeBullet}[op.A%3], BulletSymbol: document.BulletTypeDot, StartNumber: 1 + op.A%4, IndentLevel: op.A % 3})
 	case "bullet":
@@ -423,7 +433,7 @@ func runC07(cfg *runCfg) error {
 		raceBin = ""
 	}
 	res.Extra["race_binary"] = raceBin != ""
-	res.Rule = "pairs of call histories (19 kinds of calls: saving in the middle of a history with the bytes held until the end, content, notes incl. removal, lists, images, headers, page settings, in-place edits of predefined styles through the document's own style manager, custom styles, tables, properties, TOC, template rendering, creation through the Markdown converter) on two distinct documents - both new, both rendered from one template of one engine (whose base document carries 0-7 relationship-creating elements), or both opened from the same bytes; each pair runs in fresh processes: each history alone, both orders sequentially, a random interleaving, and concurrently in goroutines (under the race detector when available); the projection of each document (every part canonicalised, accessors) must equal its projection alone; non-trivial = both histories have at least 3 calls; distinct by hash of the pair"
+	res.Rule = "pairs of call histories (19 kinds of calls: saving in the middle of a history with the bytes held until the end, content, notes incl. removal, lists, images, headers, page settings, in-place edits of predefined styles through the document's own style manager, custom styles, tables, properties, TOC, template rendering, creation through the Markdown converter) on two distinct documents - both new, both rendered from one template of one engine (whose base document carries 0-10 relationship-creating elements, notes included), or both opened from the same bytes; each pair runs in fresh processes: each history alone, both orders sequentially, a random interleaving, and concurrently in goroutines (under the race detector when available); the projection of each document (every part canonicalised, accessors) must equal its projection alone; non-trivial = both histories have at least 3 calls; distinct by hash of the pair"
 	dist := newDistinct()
 	type job struct {
 		ci   int
